@@ -68,7 +68,7 @@ static void build_lists(int thorough) {
   static const double et[] = {-1e300, -1e-300, 1e-10, 0.001, 0.0099, 0.01, 0.0109, 0.5, 1.0000000001, 2.0, 5.0, 10.0, 28.0, 50.0, 88.0, 115.6, 200.0, 500.0, 800.0, 800.1, 1001.0, 1e4, 1e5};
   NE = 0; for (unsigned i = 0; i < sizeof eq / sizeof *eq; i++) ELIST[NE++] = eq[i];
   if (thorough) for (unsigned i = 0; i < sizeof et / sizeof *et; i++) ELIST[NE++] = et[i];
-  static const double aq[] = {0.0, 1e-9, 0.7853981633974483, 1.5707963267948966, 3.141592653589793, -1.5707963267948966, 6.783185307179586};
+  static const double aq[] = {0.0, 1e-9, 0.7853981633974483, 1.5707963267948966, 3.141592653589793, -1.5707963267948966, 6.783185307179586, 4.0};
   static const double at[] = {100.0, 1e300, -3.141592653589793, 2.0};
   NA = 0; for (unsigned i = 0; i < sizeof aq / sizeof *aq; i++) ALIST[NA++] = aq[i];
   if (thorough) for (unsigned i = 0; i < sizeof at / sizeof *at; i++) ALIST[NA++] = at[i];
